@@ -71,6 +71,11 @@ def spec_flat() -> Dict[str, Any]:
     two negative responses, LENGTH-KEY parameters (request and response) with the values they size, a SYSTEM parameter."""
     dops = [{"name": "u8", "dct": U(8)}, {"name": "u8b", "dct": U(8)}, {"name": "u16", "dct": U(16)},
             {"name": "s8", "dct": U(8, "A_INT32")}, {"name": "u4", "dct": U(4)},
+            {"name": "u32", "dct": U(32)}, {"name": "u32b", "dct": U(32)},
+            {"name": "str4", "dct": {"k": "STD", "base": "A_ASCIISTRING", "bits": 32}, "phys": "A_UNICODE2STRING"},
+            {"name": "str4b", "dct": {"k": "STD", "base": "A_ASCIISTRING", "bits": 32}, "phys": "A_UNICODE2STRING"},
+            {"name": "f32", "dct": {"k": "STD", "base": "A_FLOAT32", "bits": 32}, "phys": "A_FLOAT32"},
+            {"name": "f32b", "dct": {"k": "STD", "base": "A_FLOAT32", "bits": 32}, "phys": "A_FLOAT32"},
             {"name": "blob", "dct": {"k": "PLEN", "base": "A_BYTEFIELD", "key_id": "BVF.RQ_var.len"}, "phys": "A_BYTEFIELD"},
             {"name": "rblob", "dct": {"k": "PLEN", "base": "A_BYTEFIELD", "key_id": "BVF.PR_var.rlen"}, "phys": "A_BYTEFIELD"}]
     msgs = [
@@ -88,6 +93,12 @@ def spec_flat() -> Dict[str, Any]:
         {"kind": "POS-RESPONSE", "name": "PR_read_long", "params": [cc("sid", 0x62, 0, semantic="SERVICE-ID"), mrp("did", 1, 1, 2),
                                                                     val("data", "u16", 3, semantic="DATA"), val("more", "u8b", 5)]},
         {"kind": "NEG-RESPONSE", "name": "NR_busy", "params": [cc("sid", 0x7F, 0), mrp("rq_sid", 1, 0, 1), cc("nrc", 0x21, 2)]},
+        # PHYSICAL-DEFAULT-VALUEs that CPython does not intern (big integers, string, float): two separately loaded
+        # inputs hold EQUAL but not IDENTICAL objects
+        {"kind": "REQUEST", "name": "RQ_defs", "params": [cc("sid", 0x30, 0), val("d1000", "u16", 1, default=1000), val("d70000", "u32", 3, default=70000),
+                                                          val("dstr", "str4", 7, default="abcd"), val("dflt", "f32", 11, default=1.5)]},
+        {"kind": "POS-RESPONSE", "name": "PR_defs", "params": [cc("sid", 0x70, 0), val("e1000", "u16", 1, default=1000), val("estr", "str4b", 3, default="wxyz"),
+                                                               val("eflt", "f32b", 7, default=-2.25)]},
         # LENGTH-KEY + a value whose length it determines (PARAM-LENGTH-INFO-TYPE), SYSTEM parameter
         {"kind": "REQUEST", "name": "RQ_var", "params": [cc("sid", 0x2F, 0), {"t": "LENGTH-KEY", "name": "len", "byte": 1, "dop": "u8", "id": "BVF.RQ_var.len",
                                                                              "semantic": "LENGTH"},
@@ -99,7 +110,8 @@ def spec_flat() -> Dict[str, Any]:
     svcs = [{"name": "read", "request": "RQ_read", "pos": ["PR_read", "PR_read_long"], "neg": ["NR_gen"], "semantic": "DATA-READ"},
             {"name": "write", "request": "RQ_write", "pos": ["PR_write"], "neg": ["NR_gen", "NR_busy"], "semantic": "DATA-WRITE"},
             {"name": "reset", "request": "RQ_reset"},
-            {"name": "var", "request": "RQ_var", "pos": ["PR_var"], "neg": ["NR_gen"]}]
+            {"name": "var", "request": "RQ_var", "pos": ["PR_var"], "neg": ["NR_gen"]},
+            {"name": "defs", "request": "RQ_defs", "pos": ["PR_defs"], "neg": ["NR_gen"]}]
     layer = {"type": "BASE-VARIANT", "name": "BVF", "dops": dops, "msgs": msgs, "svcs": svcs}
     return {"containers": [{"name": "c18flat", "layers": [layer]}]}
 
@@ -207,7 +219,29 @@ def spec_names() -> Dict[str, Any]:
     return {"containers": [{"name": "c18names", "layers": [base, ecu]}]}
 
 
-GENERATED = {"names": spec_names, "flat": spec_flat, "tree": spec_tree, "single": spec_single, "shared": spec_shared}
+def spec_override() -> Dict[str, Any]:
+    """An ECU variant that OVERRIDES an inherited service: own DIAG-SERVICE of the same short name with own request and
+    responses (same content, own IDs), next to an ECU variant that simply inherits.  The database has no DOP at all, so
+    that a comparison against a copy whose container is renamed has an exact answer too (the identity of a DOP includes
+    its document).  A RESERVED parameter ends the constant request prefix early: edits behind it keep the prefix."""
+
+    def msgs(n: int) -> List[Dict[str, Any]]:
+        return [{"kind": "REQUEST", "name": f"RQ_{n}", "params": [cc("sid", 0x50 + n, 0, semantic="SERVICE-ID"), {"t": "RESERVED", "name": "rsv", "byte": 1, "bits": 8},
+                                                               cc("tail", 4 + n, 2, semantic="T"), cc("wide", 0x0102, 3, bits=16)]},
+                {"kind": "POS-RESPONSE", "name": f"PR_{n}", "params": [cc("sid", 0x90 + n, 0), mrp("echo", 1, 1, 1), cc("status", n, 2)]},
+                {"kind": "NEG-RESPONSE", "name": f"NR_{n}", "params": [cc("sid", 0x7F, 0), mrp("rq_sid", 1, 0, 1),
+                                                                       {"t": "NRC-CONST", "name": "code", "byte": 2, "values": [0x22, 0x31], "dct": U(8)}]}]
+
+    def svc(n: int) -> Dict[str, Any]:
+        return {"name": f"s{n}", "request": f"RQ_{n}", "pos": [f"PR_{n}"], "neg": [f"NR_{n}"]}
+
+    ob = {"type": "BASE-VARIANT", "name": "OB", "msgs": msgs(1) + msgs(2), "svcs": [svc(1), svc(2)]}
+    oe1 = {"type": "ECU-VARIANT", "name": "OE1", "parents": [{"layer": "OB"}], "msgs": msgs(1), "svcs": [svc(1)]}
+    oe2 = {"type": "ECU-VARIANT", "name": "OE2", "parents": [{"layer": "OB"}]}
+    return {"containers": [{"name": "c18override", "layers": [ob, oe1, oe2]}]}
+
+
+GENERATED = {"override": spec_override, "names": spec_names, "flat": spec_flat, "tree": spec_tree, "single": spec_single, "shared": spec_shared}
 
 
 def pdx_files(path: str) -> Files:
@@ -690,6 +724,22 @@ def edit_dop(files: Files, edit: str, dop_id: str) -> Tuple[Files, Dict[str, Any
     else:
         raise ValueError(edit)
     return serialize(files, trees), info
+
+
+def rename_containers(files: Files) -> Files:
+    """the same database with every DIAG-LAYER-CONTAINER renamed (SHORT-NAME + "_c18r"); DOCREFs of type CONTAINER follow"""
+    trees = parse(files)
+    renamed: Dict[str, str] = {}
+    for r in trees.values():
+        for c in r.iter("DIAG-LAYER-CONTAINER"):
+            old = text(c, "SHORT-NAME") or ""
+            renamed[old] = old + "_c18r"
+            set_text(c, "SHORT-NAME", renamed[old])
+    for r in trees.values():
+        for e in r.iter():
+            if e.get("DOCTYPE") == "CONTAINER" and e.get("DOCREF") in renamed:
+                e.set("DOCREF", renamed[e.get("DOCREF")])
+    return serialize(files, trees)
 
 
 def apply_edit(files: Files, edit: str, target: List[Any]) -> Tuple[Files, Dict[str, Any]]:
